@@ -12,7 +12,7 @@ from vf.hlib import BUFFERED_FAMILIES, MISSING, case, fail, finish, get_env, pic
 PID = "C06"
 WHICH = ["dict", "list"]
 PARTS = [(f, w) for f in BUFFERED_FAMILIES for w in WHICH]
-ACTIONS = ["read", "write-new", "write-replace", "write-nested", "read-item"]
+ACTIONS = ["read", "write-new", "write-replace", "write-nested", "clear", "reset", "read-item"]
 CTX = ["backend", "objects-exit-A-first", "objects-exit-B-first", "objects-entered-B-first", "backend-around-objects"]
 
 
@@ -31,7 +31,7 @@ def parts():
 
 
 def actions():
-    return ACTIONS if hlib.TIER == "thorough" else ACTIONS[:4]
+    return ACTIONS if hlib.TIER == "thorough" else ACTIONS[:5]
 
 
 def prog(ci: int, t1: int, t2: int, t3: int, t4: int, t5: int, pre: int) -> bool:
@@ -94,6 +94,8 @@ def _run(env, fam, which, ctx, sel, pre, names, args):
                     return finish(True, fail(lambda: f"{w.cls.__name__} {log}: {o}() returned {got!r}; all earlier writes give {ref!r}"))
             elif act == "read-item":
                 k = "p" if which == "dict" else 1
+                if (which == "dict" and k not in ref) or (which == "list" and len(ref) < 2):
+                    return finish(False, True)
                 got = obj[k]
                 if not eq_plain(plain(got), plain(ref[k])):
                     if known(PID, {"family": fam.buffered, "what": "read"}, args):
@@ -108,10 +110,25 @@ def _run(env, fam, which, ctx, sel, pre, names, args):
                     ref.append(val)
             elif act == "write-replace":
                 k = "p" if which == "dict" else 1
+                if which == "list" and len(ref) < 2:
+                    return finish(False, True)
                 obj[k] = val
                 ref[k] = val
+            elif act == "clear":
+                obj.clear()
+                ref.clear()
+            elif act == "reset":
+                new = {"r": val} if which == "dict" else [val]
+                obj.reset(copy_tree(new))
+                ref.clear()
+                if which == "dict":
+                    ref.update(new)
+                else:
+                    ref.extend(new)
             else:
                 k = "a" if which == "dict" else 0
+                if (which == "dict" and k not in ref) or (which == "list" and not ref) or not isinstance(ref[k], dict):
+                    return finish(False, True)
                 obj[k][f"n{val}"] = val
                 ref[k][f"n{val}"] = val
         # leave the common buffered state
@@ -148,16 +165,16 @@ def _run(env, fam, which, ctx, sel, pre, names, args):
 
 def plan(tier):
     if tier == "quick":
-        return [{"fn": "prog", "nparts": 4 * 8, "timeout": 300}]
+        return [{"fn": "prog", "nparts": 4 * 10, "timeout": 300}]
     return [{"fn": "prog", "nparts": len(PARTS) * 15, "timeout": 2400}]
 
 
 def smoke(tier):
     out = []
-    for part in range(32):
+    for part in range(40):
         for ci in range(5):
-            for t in range(0, 8, 3):
-                out.append(("prog", (ci, t, (t + 3) % 8, (t + 5) % 8, 0, 0, (ci + t) % 3), part, 32))
+            for t in range(0, 10, 3):
+                out.append(("prog", (ci, t, (t + 3) % 10, (t + 5) % 10, 0, 0, (ci + t) % 3), part, 40))
     return out
 
 
@@ -171,7 +188,7 @@ FUNCTIONS = [
     "synced_collections.buffers.memory_buffered_collection:SharedMemoryFileBufferedCollection._save_to_buffer",
     "synced_collections.buffers.memory_buffered_collection:SharedMemoryFileBufferedCollection._load_from_buffer",
 ]
-BOUNDS = {"quick": {"classes": 8, "objects_on_one_file": 2, "contexts": CTX, "pre_histories": ["none", "A-loaded-before", "B-used-buffered-before"], "classes_quick": "BufferedJSON and MemoryBufferedJSON dict/list (the attribute-access variants share the buffer code)", "program": "3 tokens over {A,B} x " + str(ACTIONS[:4])},
+BOUNDS = {"quick": {"classes": 8, "objects_on_one_file": 2, "contexts": CTX, "pre_histories": ["none", "A-loaded-before", "B-used-buffered-before"], "classes_quick": "BufferedJSON and MemoryBufferedJSON dict/list (the attribute-access variants share the buffer code)", "program": "3 tokens over {A,B} x " + str(ACTIONS[:5])},
           "thorough": {"classes": 8, "objects_on_one_file": 3, "program": "5 tokens over {A,B,C} x " + str(ACTIONS)}}
 ASSUMPTIONS = ["finite selector space explored exhaustively through the solver's path tree; decided programs run the real code natively with concrete values", "environment models of vf/env_model.py; default capacity"]
 OUTSIDE = ["more than 2 (3) objects, more than 4 (5) tokens", "objects in *different* buffering states (documented as unsupported by the library)"]
